@@ -401,8 +401,9 @@ Definition gstep (g : gst) (t : Z) (a : act) : option (gst * list action) :=
       let allowed :=
         match cx with
         | CxThread => true
-        (* from the source's own event handler: the caller is the thread running it *)
-        | CxHandler => is_owner g t && match o_pc g with OInEh => true | _ => false end
+        (* from one of the source's own callouts, by the thread running it: the event handler, the registration handler
+           (it has just been delivered: source.c:785, the owner stands at :788), the cancel handler *)
+        | CxHandler => is_owner g t && match o_pc g with OInEh | OA4 | OInCh => true | _ => false end
         (* from an item running on the serial target queue: the source is not being invoked on that queue meanwhile *)
         | CxTqItem => match owner g with Some _ => negb (queue_eqb (o_q g) QTarget) | None => true end
         end in
@@ -584,3 +585,10 @@ Definition mon_step (kt kd : Z) (m : mst) (e : event) : option mst :=
 (* sv = 2 * is_timer + is_direct *)
 Definition conform (sv : Z) (tr : list event) : Z * Z :=
   let '(m, i) := run_trace (mon_step (sv / 2) (sv mod 2)) (mkM None false) tr 0 in (i, if m_wake m then 0 else 1).
+
+(* ------------------------------------------------------------------ this platform: unregistration always succeeds
+   (_dispatch_unote_unregister: custom filters, timers and _dispatch_unote_unregister_muxed all return true; there are
+   no direct knotes, DISPATCH_HAVE_DIRECT_KNOTES = 0), i.e. the oracle input c_unreg_ok is always true *)
+Definition linux_act (a : act) : bool := match a with GPhase o => c_unreg_ok o | _ => true end.
+Definition stepL (g : gst) (l : Z * act) (g' : gst) : Prop := step g l g' /\ linux_act (snd l) = true.
+Definition reachL (k : kind) (ev ca rg : bool) : gst -> Prop := reachable (fun g => g = init_state k ev ca rg) stepL.
